@@ -84,6 +84,31 @@ fn specs() -> Vec<Spec> {
     out
 }
 
+fn leak(s: String) -> &'static str {
+    Box::leak(s.into_boxed_str())
+}
+
+/// Descriptors whose fields are one 150-byte text cut at every position between two neighbouring fields of the hashed
+/// key (value|value, name|value, help|variable name, help|constant name): all structurally different.
+fn long_specs() -> Vec<Spec> {
+    let text: String = (0..150).map(|i| (b'a' + ((i * 7 + i / 26) % 26) as u8) as char).collect();
+    let mut out = vec![];
+    for i in 0..=text.len() {
+        let (l, r) = (leak(text[..i].to_string()), leak(text[i..].to_string()));
+        out.push(Spec { name: "m", help: "h", consts: vec![("a", l), ("b", r)], vars: vec![] });
+        if i >= 1 {
+            out.push(Spec { name: l, help: "h", consts: vec![("a", r)], vars: vec![] });
+            out.push(Spec { name: l, help: "h", consts: vec![("a", ""), ("b", r)], vars: vec![] });
+        }
+        if i >= 1 && i < text.len() {
+            out.push(Spec { name: "m", help: l, consts: vec![], vars: vec![r] });
+            out.push(Spec { name: "m", help: l, consts: vec![(r, "v")], vars: vec![] });
+            out.push(Spec { name: "m", help: "h", consts: vec![("a", l)], vars: vec![r] });
+        }
+    }
+    out
+}
+
 fn main() {
     let args = parse_args();
     quiet_panics();
@@ -92,8 +117,9 @@ fn main() {
         let doc = read_replay(p);
         println!("{}", doc["detail"]);
     }
-    let all = specs();
-    rep.rule = format!("all descriptors over names {:?} x help {:?} x constant-label sets (<=2 labels over names {:?}, values {:?}) x variable-label lists (<=2 over {:?}, both orders): each built through Desc::new from a constant-label HashMap in every realised iteration order and through Opts with every insertion order; id must be equal exactly for equal (fq_name, constant values in label-name order), dim_hash exactly for equal (help, constant-name set, variable-name set) — over all pairs, by grouping in both directions; rebuilds of one descriptor must agree, also when other descriptors are built in between (X, Y, X with 4 strides); const_label_pairs must come out name-sorted. distinct = distinct (id, dim_hash) pairs", NAMES, HELPS, CNAMES, VALUES, VNAMES);
+    let mut all = specs();
+    all.extend(long_specs());
+    rep.rule = format!("all descriptors over names {:?} x help {:?} x constant-label sets (<=2 labels over names {:?}, values {:?}) x variable-label lists (<=2 over {:?}, both orders): each built through Desc::new from a constant-label HashMap in every realised iteration order and through Opts with every insertion order; id must be equal exactly for equal (fq_name, constant values in label-name order), dim_hash exactly for equal (help, constant-name set, variable-name set) — over all pairs, by grouping in both directions; plus descriptors whose neighbouring key fields are one 150-byte text cut at every position; rebuilds of one descriptor must agree, also when other descriptors are built in between (X, Y, X with 4 strides; X, HUGE, X with 600/5000/70000-byte fields; X on a fresh thread); const_label_pairs must come out name-sorted. distinct = distinct (id, dim_hash) pairs", NAMES, HELPS, CNAMES, VALUES, VNAMES);
     rep.bounds = json!({"descriptors": all.len(), "const_labels": 2, "variable_labels": 2});
     let mut ids_by_key: BTreeMap<String, BTreeMap<u64, String>> = BTreeMap::new();
     let mut keys_by_id: BTreeMap<u64, BTreeMap<String, String>> = BTreeMap::new();
@@ -180,6 +206,34 @@ fn main() {
             rep.transitions += 2;
             if again != first {
                 rep.violation("identity-depends-on-earlier-calls", format!("Desc::new({:?}), Desc::new({:?}), Desc::new(first again) gives {:x?} then {:x?}", x, y, first, again), json!({"engine":"enum","a": format!("{:?}", x), "b": format!("{:?}", y), "detail": "X, Y, X on one thread: the second X differs from the first"}));
+                break;
+            }
+        }
+    }
+    // a very large key in between (larger than any plausible scratch buffer), and a build on another thread
+    {
+        let x = valid[valid.len() / 3];
+        let first = build(x);
+        for n in [600usize, 5000, 70000] {
+            let huge = Spec { name: "huge", help: leak("h".repeat(n)), consts: vec![("a", leak("v".repeat(n)))], vars: vec![] };
+            let h1 = build(&huge);
+            let again = build(x);
+            let h2 = build(&huge);
+            let xs: Spec = (*x).clone();
+            let other = std::thread::spawn(move || {
+                let m: HashMap<String, String> = xs.consts.iter().map(|(k, v)| (k.to_string(), v.to_string())).collect();
+                Desc::new(xs.name.into(), xs.help.into(), xs.vars.iter().map(|x| x.to_string()).collect(), m).ok().map(|d| (d.id, d.dim_hash))
+            })
+            .join()
+            .unwrap_or(None);
+            rep.evaluations += 4;
+            rep.transitions += 4;
+            if again != first || h1 != h2 || other != first || first.is_none() || h1.is_none() {
+                rep.violation(
+                    "identity-depends-on-earlier-calls",
+                    format!("Desc::new({:?}) = {:x?}; after a descriptor with {}-byte help and value: {:x?}; on a fresh thread: {:x?}; the large one twice: {:x?} / {:x?}", x, first, n, again, other, h1, h2),
+                    json!({"engine":"enum","a": format!("{:?}", x), "b": format!("huge({})", n), "detail": "X, HUGE, X (and X on a fresh thread) must agree"}),
+                );
                 break;
             }
         }
